@@ -1466,6 +1466,58 @@ mod tests {
     }
 
     #[test]
+    fn nested_scopes_wait_for_their_own_threads() {
+        // the engine's own scope returns early here: the outer scope's quick thread wakes the task
+        // while it waits for the inner scope's slow thread
+        let (w, r) = simulate(&[], || {
+            use sstd::sync::atomic::{AtomicUsize, Ordering};
+            let hits = AtomicUsize::new(0);
+            sstd::thread::scope(|outer| {
+                outer.spawn(|| {
+                    hits.fetch_add(1, Ordering::SeqCst);
+                });
+                sstd::thread::scope(|inner| {
+                    let h = inner.spawn(|| {
+                        for _ in 0..20 {
+                            sstd::thread::yield_now();
+                        }
+                        hits.fetch_add(10, Ordering::SeqCst);
+                        7
+                    });
+                    assert_eq!(h.join().unwrap(), 7);
+                    inner.spawn(|| {
+                        for _ in 0..20 {
+                            sstd::thread::yield_now();
+                        }
+                        hits.fetch_add(100, Ordering::SeqCst);
+                    });
+                });
+                // the inner scope is over: both of its threads are done
+                assert!(hits.load(Ordering::SeqCst) >= 110);
+            });
+            crate::seams::emit_str(&format!("{}", hits.load(Ordering::SeqCst)));
+        });
+        assert!(r.is_ok(), "{:?}", world::PANIC_INFO.with(|p| p.borrow().clone()));
+        assert_eq!(w.out, "111");
+    }
+
+    #[test]
+    fn a_panicking_scoped_thread_fails_the_scope_unless_joined() {
+        let (_w, r) = simulate(&[], || {
+            sstd::thread::scope(|s| {
+                s.spawn(|| panic!("worker failed"));
+            });
+        });
+        assert!(r.is_err());
+        let (w, r) = simulate(&[], || {
+            let got = sstd::thread::scope(|s| s.spawn(|| -> u8 { panic!("worker failed") }).join().is_err());
+            crate::seams::emit_str(&format!("{}", got));
+        });
+        assert!(r.is_ok());
+        assert_eq!(w.out, "true");
+    }
+
+    #[test]
     fn replay_plan_routes_decisions() {
         let p = world::ReplayPlan::new(&[
             Decision::Sched { at: 3, task: 2 },
